@@ -196,7 +196,11 @@ static void canon_of(const struct model *m, struct canon *c)
 		struct ext2fs_rb_private *bp = O64()->private;
 		c->b[c->n++] = rb_index(&bp->root, bp->wcursor);
 		c->b[c->n++] = rb_index(&bp->root, bp->rcursor);
-		c->b[c->n++] = bp->rcursor ? rb_index(&bp->root, bp->rcursor_next) : 0xff;	/* unobservable when rcursor is NULL */
+		{	/* kept even while rcursor is NULL: a later hit could pair a stale successor with a new cursor.  A successor that dangles while
+			 * rcursor is NULL (rb_resize_bmap frees extents without touching it) is never dereferenced by the tree's code and is recorded as NULL */
+			unsigned char rn = rb_index(&bp->root, bp->rcursor_next);
+			c->b[c->n++] = (rn == 0xfe && !bp->rcursor) ? 0xff : rn;
+		}
 		rb_ser(bp->root.rb_node, c);
 	} else {
 		char *arr = backend == B_BA ? x_ba_array(obj) : x_32_array(obj);
